@@ -1227,6 +1227,15 @@ MUTANTS = [
                     count -= 1;
                     Some(edge)""",
          expect="C01.q/stripped-buffer/every-popped-edge-is-handed-out"),
+    dict(id="C01.r-hit-without-observation", prop="C01", file=CG + "fast_path.rs",
+         old="            self.observe_callee_fingerprint(query_caller, &node_info, kind);", new="            let _ = (query_caller, &node_info, kind);",
+         expect="C01.r/fast_path/hit-records-the-observation"),
+    dict(id="C01.r-abort-callee-removes-another-id", prop="C01", file=CG + "computing.rs",
+         old="                    if let Some(pos) = qids.iter().position(|x| x == callee) {", new="                    if let Some(pos) = qids.iter().position(|x| x != callee) {",
+         expect="C01.r/CalleeOrder::abort_callee/removes-exactly-the-callee"),
+    dict(id="C16.b-confirmed-victim-stays-in-the-policy", prop="C16", file=ST + "tiny_lfu/policy.rs",
+         old="                self.lru.pop_least_recent(lru::Region::Probation).unwrap();", new="                ();",
+         expect="C16.b/policy/forget-only-after-confirmation"),
     # ------------------------------------------------------------------ C09.f (D5)
     dict(id="C09.f-D5-fold-heap-in-arbitrary-order", prop="C09", file=ST + "key_of_set_map/cache.rs",
          old="""        let mut ordered = log.iter().collect::<Vec<_>>();
